@@ -4,7 +4,7 @@ from ..framework import Check
 from .. import mgr_check, mgr_common as C
 
 THEOREMS = ["C18_traffic_exact", "C18_timing_exact", "C18_timing_slots", "C18_stats_not_counted",
-            "C18_counter_incr", "C18_interval_starts_empty", "C18_ex_130", "C18_ex_empty", "C18_ex_64"]
+            "C18_counter_incr", "C18_counted_with_or_without_timing", "C18_interval_starts_empty", "C18_ex_130", "C18_ex_empty", "C18_ex_64"]
 CHECKERS = ["C18", "C03"]
 
 
